@@ -4,7 +4,6 @@ package main
 
 import (
 	"bytes"
-	"strings"
 
 	"github.com/ddddddO/gtree"
 )
@@ -33,7 +32,7 @@ func handle(toks []string) string {
 			opts = append(opts, gtree.WithFileExtensions(hexlist(toks[8])))
 		}
 		var w bytes.Buffer
-		err := gtree.Output(&w, strings.NewReader(unhex(toks[9])), opts...)
+		err := gtree.Output(&w, mkReader(unhex(toks[9])), opts...)
 		chunks := "-"
 		if w.Len() > 0 {
 			chunks = "t" + hx(w.String())
